@@ -27,7 +27,7 @@ PLAN = {
     'thorough': dict(cases=20000, budget_s=900, case_timeout=240, min_cases=3333),
 }
 KINDS = ['identity', 'scaled', 'prefix', 'ranges', 'square', 'tall', 'integer', 'sparse', 'rankdef_with_ones',
-         'rankdef_without_ones', 'total_row', 'wide_without_ones', 'hier']
+         'rankdef_without_ones', 'total_row', 'wide_without_ones', 'hier', 'illcond']
 
 
 def setup(tier):
@@ -80,6 +80,16 @@ def make_Q(rng, kind, n):
         return np.ones((1, n)) * float(gen.pick(rng, [1.0, 2.0])), True
     if kind == 'hier':
         return measure.hierarchical(n), True
+    if kind == 'illcond':
+        # full rank but badly conditioned (1e4-1e5): the iterative solve reaches the ones vector to ~cond*eps only, well
+        # inside the estimator's own acceptance tolerance
+        if n == 1:
+            return np.ones((1, 1)), True
+        U, _ = np.linalg.qr(rng.normal(size=(n, n)))
+        V, _ = np.linalg.qr(rng.normal(size=(n, n)))
+        sv = np.ones(n)
+        sv[-1] = 1.0 / float(gen.pick(rng, [1e4, 1e5]))
+        return (U * sv) @ V.T, True
     if kind == 'rankdef_with_ones':
         r = max(1, n // 2)
         B = rng.normal(size=(r, n))
